@@ -243,6 +243,20 @@ def gen_namespace(rng, nsname, thorough, deps, want_blocks=True, main=True, gobj
         if want_blocks and rng.random() < 0.5:
             block(['%s%s%s:' % (P, owner, c), '@%s: the %s' % (snake(owner), owner.lower())] +
                   (['@user_data: user data'] if len(params) > 1 else []) + ['', 'A callback.'], f_types)
+    if rng.random() < 0.3:
+        # a callback that cannot be introspected (it takes `...`), used by name as the type of a
+        # record field: the field is not introspectable either, whichever of the two arrives first
+        D({'k': 'typedef_callback', 'name': P + 'PrintFunc', 'ret': ['void'], 'pointer': True, 'varargs': True,
+           'params': [['format', STRING_IN]]}, f_types)
+        holder = rng.choice(records)
+        order_before.append([f_types, f_structs])
+        D({'k': 'typedef_struct_fwd', 'name': P + holder + 'Hooks', 'tag': '_' + P + holder + 'Hooks'}, f_typedefs)
+        D({'k': 'struct_def', 'tag': '_' + P + holder + 'Hooks', 'members': [
+            {'name': 'print', 'type': ['named', P + 'PrintFunc'], 'private': False},
+            {'name': 'level', 'type': ['basic', 'int'], 'private': False}] +
+            ([{'name': 'notify', 'type': ['named', cb_plain], 'private': False}
+              for cb_plain in [d['name'] for d in decls if d['k'] == 'typedef_callback' and not d.get('varargs')][:1]])},
+          f_structs, 4)
     for i in range(rng.randint(0, 2)):
         D({'k': 'typedef_alias', 'name': '%sCount%d' % (P, i), 'type': rng.choice([['basic', 'int'], ['named', 'guint'], ['named', 'gsize']])}, f_types)
     for i in range(rng.randint(0, 3)):
@@ -847,8 +861,14 @@ def gen_namespace(rng, nsname, thorough, deps, want_blocks=True, main=True, gobj
             m = _re.match(r' \* ([A-Za-z_][A-Za-z0-9_.:]*):', first)
             if not m or m.group(1).startswith('SECTION'):
                 continue
-            block(['%s:' % m.group(1), '', 'The same thing, documented once more, differently.', '',
-                   'Since: 9.9', 'Stability: Private'], rng.choice(files))
+            if len(cfiles) >= 2 and rng.random() < 0.6:
+                # ... in two source files (per-platform back-ends documenting the same function)
+                for n_, cf in enumerate(cfiles[:2]):
+                    body = '/**\n * %s:\n *\n * Documented again in source file %d.\n *\n * Since: 9.%d\n */' % (m.group(1), n_, n_)
+                    comments.append([body, cf, lines.take(cf, 7)])
+            else:
+                block(['%s:' % m.group(1), '', 'The same thing, documented once more, differently.', '',
+                       'Since: 9.9', 'Stability: Private'], rng.choice(files))
             dup_blocks = True
     job = {'ns': nsname, 'version': '1.0', 'id_prefixes': [P], 'sym_prefixes': [p],
            'includes': ['%s-%s' % (d['ns'], d['version']) for d in deps],
@@ -917,6 +937,19 @@ def gen_job(rng, thorough):
     elif shape == 'diamond':
         b = gen_namespace(rng, 'Dpb', False, [a], want_blocks=False, main=False)
         deps = [b, a]
+    if shape in ('chain', 'diamond') and rng.random() < 0.35:
+        # B and the A it includes both answer to "Dp" and both describe DpShared: which one a
+        # `DpShared *` of the main namespace resolves to follows the order in which the two were
+        # registered - which must be the same whether they were parsed or came from the cache
+        a['id_prefixes'] = ['Dpa', 'Dp']
+        b['id_prefixes'] = ['Dpb', 'Dp']
+        for j, tag in ((a, 'a'), (b, 'b')):
+            f = [x for x in j['file_order'] if x.endswith('-typedefs.h')][0]
+            j['decls'].append({'k': 'typedef_struct_fwd', 'name': 'DpShared', 'tag': '_DpShared' + tag,
+                               'file': f, 'line': 900})
+        b['_records'] = b['_records'] + ['-shared:DpShared']
+        if shape == 'diamond':
+            a['_records'] = a['_records'] + ['-shared:DpShared']
     elif shape == 'fan':
         b = gen_namespace(rng, 'Dpb', False, [a], want_blocks=False, main=False)
         c = gen_namespace(rng, 'Dpc', False, [a], want_blocks=False, main=False)
